@@ -139,7 +139,7 @@ func genC10(r *Rng, tier string) *World {
 		}
 	}
 	if !flat && r.P(0.1) {
-		root = DeepChain(r, &c, 5+r.Intn(3))
+		root = DeepChain(r, &c, DeepSegments(r))
 		c.MaxElems = 2
 	}
 	if root.Kind != "struct" {
